@@ -148,6 +148,8 @@ def _op_rows():
           ('stop', {'mode': None, 'cycle_point': '3'}),
           ('force_trigger_tasks', {'tasks': ['3/a'], 'flow': ['all']}),
           ('force_trigger_tasks', {'tasks': ['1/a'], 'flow': ['all']})]),
+        ('op-solo-P1-f5-ra1-trigger-first', [('P1', [N(a)])], 5, 'P1',
+         [('force_trigger_tasks', {'tasks': ['1/a'], 'flow': ['all']})]),
         ('op-chain-P1-f3-ra0', [('P1', [E(A(a), b)])], 3, 'P0',
          [('stop', {'mode': None, 'cycle_point': '2'}),
           ('force_trigger_tasks', {'tasks': ['3/b'], 'flow': ['all']}),
